@@ -175,7 +175,8 @@ CLAIMS = {
        "checked for an exception (a failed write is never reported as success - this obligation failed on the original tree, defect F3, "
        "now fixed); Saver.close never finalises after unfinished writes. The file-system level (temp directory, renames, retry after a "
        "fault) is a bounded fault enumeration with a failing file-system shim on the real FileSaver and both processors.",
-  note="Also proved: FileSaver._save_chunk (chunk files go into the temporary directory), FileSaver._close (rename to the final name "
+  note="Every exception leaving Saver.save_from - also a failure of the final close - is on record in got_exception (failed on the pinned "
+       "tree: defect F25, found by the thorough fault enumeration, fixed). Also proved: FileSaver._save_chunk (chunk files go into the temporary directory), FileSaver._close (rename to the final name "
        "only after the complete metadata was flushed), strax.io.save_file (temporary name first) and check_cache's dominance "
        "obligations (nothing is saved while incomplete data is tolerated / under a partial request). "
        "Not covered: abrupt process death inside an OS call, forked (inlined) savers, savers closed by other threads. Known finding F20 "
